@@ -70,9 +70,10 @@ def gen(E, p):
                 E.assume(z3.And(d >= (1 << 62), d > 0))      # magnitudes whose sums leave the 64-bit range
     elif dt.startswith("float"):
         from . import c01
-        data = c01.gen_cells(E, S, dt)          # bit patterns, IEEE-exact comparisons and arithmetic; NaN excluded
-        for d in data:
-            E.assume(z3.Not(z3.fpIsNaN(np._to_fp(d, np.dtype(dt)))))
+        data = c01.gen_cells(E, S, dt)          # bit patterns, IEEE-exact comparisons and arithmetic; NaN excluded except where asked for
+        if not p.get("nan"):
+            for d in data:
+                E.assume(z3.Not(z3.fpIsNaN(np._to_fp(d, np.dtype(dt)))))
     elif dt == "bool":
         data = [E.bool(f"d{q}") for q in range(S)]
     elif dt in ("uint8", "int8"):
@@ -202,6 +203,7 @@ def sym(E, p, kf):
             return dict(goal=False, got=got, case=case)          # the extremum of float cells is one of them: same float type
         fp = lambda x: np._to_fp(x if z3.is_expr(x) else z3.BitVecVal(int(x), np.dtype(dt).itemsize * 8), np.dtype(dt))
         GE, LE, EQ = (lambda a, b: z3.fpGEQ(fp(a), fp(b))), (lambda a, b: z3.fpLEQ(fp(a), fp(b))), (lambda a, b: z3.fpEQ(fp(a), fp(b)))
+        ISNAN = lambda a: z3.fpIsNaN(fp(a))
     else:
         GE, LE, EQ = (lambda a, b: a >= b), (lambda a, b: a <= b), specs.eqv
     if via in ("none", "npnone"):
@@ -221,6 +223,13 @@ def sym(E, p, kf):
             g = got["flat"][r]
             if p["op"] in ("max", "min"):
                 inrow = exp[r][1]
+                if p.get("nan"):
+                    # numpy's maximum / minimum propagate NaN: a row holding a NaN has the extremum NaN
+                    anynan = z3.Or(*[z3.And(c, ISNAN(d)) for c, d in zip(inrow, data)]) if data else z3.BoolVal(False)
+                    conds.append(z3.Implies(anynan, ISNAN(g)))
+                    conds.append(z3.Implies(z3.Not(anynan), z3.And(*[z3.Implies(c, (GE(g, d) if p["op"] == "max" else LE(g, d))) for c, d in zip(inrow, data)])))
+                    conds.append(z3.Implies(z3.Not(anynan), z3.Or(lens[r] == 0, *[z3.And(c, EQ(g, d)) for c, d in zip(inrow, data)])))
+                    continue
                 conds.append(z3.And(*[z3.Implies(c, (GE(g, d) if p["op"] == "max" else LE(g, d))) for c, d in zip(inrow, data)]))
                 conds.append(z3.Or(lens[r] == 0, *[z3.And(c, EQ(g, d)) for c, d in zip(inrow, data)]))      # nothing is claimed for an empty row
             else:
@@ -241,6 +250,8 @@ def _pyfold(op, row, dt):
         return any(row)
     if op == "all":
         return all(row)
+    if op in ("max", "min") and any(x != x for x in row):
+        return float("nan")          # numpy's maximum / minimum propagate NaN (python's max / min depend on the position of the NaN)
     if op == "max":
         return max(row)
     if op == "min":
@@ -356,6 +367,7 @@ def jobs(tier, seed):
     for op in ("max", "min"):
         out.append(dict(base, op=op, via="method", Rmin=1, empties=True, dtype="float16", R=3, L=2))      # float cells, empty rows anywhere
         out.append(dict(base, op=op, via="reduce", Rmin=1, dtype="float16", R=2, L=2))
+        out.append(dict(base, op=op, via="method", Rmin=1, dtype="float16", R=2, L=2, nan=True))          # rows may hold NaN
         out.append(dict(base, op=op, via="method", Rmin=1, empties=True))
         out.append(dict(base, op=op, via="reduce", Rmin=1, empties=True, R=3))
         for via in ("method", "reduce", "np"):
